@@ -139,10 +139,14 @@ struct track_alloc {
 	}
 };
 
+// The registries decide C16 only. Under another focus their findings are dropped instead of
+// ending the case (the C16 check runs the same histories and reports them there).
 // poll pending instrument errors
-#define VTRACK_POLL(c) do { if(!verif::reg().error.empty()) { std::string e_ = verif::reg().error; verif::reg().error.clear(); (c).fail("C16", "%s", e_.c_str()); } } while(0)
+#define VTRACK_POLL(c) do { if(!(c).focused("C16")) { verif::reg().error.clear(); break; } \
+	if(!verif::reg().error.empty()) { std::string e_ = verif::reg().error; verif::reg().error.clear(); (c).fail("C16", "%s", e_.c_str()); } } while(0)
 // end-of-case: the owner has been destroyed, nothing may remain
-#define VTRACK_END(c) do { VTRACK_POLL(c); \
+#define VTRACK_END(c) do { if(!(c).focused("C16")) { verif::reg().error.clear(); break; } \
+	if(!verif::reg().error.empty()) { std::string e_ = verif::reg().error; verif::reg().error.clear(); (c).fail("C16", "%s", e_.c_str()); } \
 	if(!verif::reg().live_obj.empty()) (c).fail("C16", "%zu element object(s) still alive after their owner was destroyed (constructed %llu, destroyed %llu)", verif::reg().live_obj.size(), (unsigned long long)verif::reg().constructed, (unsigned long long)verif::reg().destroyed); \
 	if(!verif::reg().live_blk.empty()) (c).fail("C16", "%zu block(s) still allocated after their owner was destroyed (allocs %llu, frees %llu)", verif::reg().live_blk.size(), (unsigned long long)verif::reg().allocs, (unsigned long long)verif::reg().frees); } while(0)
 
